@@ -139,6 +139,83 @@ theorem Inv.exec {s : Sys} (hi : Inv s) (sched : List Choice) (hr : Choice.retry
     simp only [List.mem_cons, not_or] at hr
     exact ih (hi.step c (fun h => hr.1 h.symm)) hr.2
 
+/-! ### the same invariant up to order, valid also under write failures that re-queue a row -/
+
+structure PInv (s : Sys) : Prop where
+  rows : (s.db ++ s.inflight.toList ++ s.queue).Perm (specRows .init 0 s.done)
+  ecu : s.ecu = specState .init s.done
+  clock : s.clock = specClock 0 s.done
+
+theorem PInv.init (h : List Exchange) : PInv (Sys.init h) := by
+  constructor <;> simp [Sys.init, specRows, specState, specClock]
+
+theorem PInv.logStep {s : Sys} (hi : PInv s) (rest : List Exchange) (e : Exchange) :
+    PInv (logStep { s with todo := rest } e) := by
+  obtain ⟨hr, he, hc⟩ := hi
+  unfold DbLog.logStep
+  by_cases himp : e.implicitOn
+  · simp only [himp, if_true]
+    constructor
+    · simp only [specRows_append, specRows_single, himp, if_true, ← he, ← hc]
+      have := hr.append_right [mkRow s.ecu (s.clock + e.dSend) (s.clock + e.dSend + e.dRecv) e]
+      simpa [List.append_assoc] using this
+    · simp [specState_append, specState, he]
+    · simp [specClock_append, specClock, hc, Nat.add_assoc]
+  · simp only [himp, Bool.false_eq_true, if_false]
+    constructor
+    · simp only [specRows_append, specRows_single, himp]
+      simpa using hr
+    · simp [specState_append, specState, he]
+    · simp [specClock_append, specClock, hc, Nat.add_assoc]
+
+theorem PInv.step {s : Sys} (hi : PInv s) (c : Choice) : PInv (step s c) := by
+  cases c with
+  | prod =>
+    simp only [DbLog.step]
+    split
+    · exact hi
+    · split
+      · exact hi
+      · exact hi.logStep _ _
+  | cancelIn =>
+    simp only [DbLog.step]
+    split
+    · exact hi
+    · split
+      · exact ⟨hi.rows, hi.ecu, hi.clock⟩
+      · have := hi.logStep [] { (‹Exchange›) with out := Outcome.cancelled }
+        exact ⟨this.rows, this.ecu, this.clock⟩
+  | cancel => exact ⟨hi.rows, hi.ecu, hi.clock⟩
+  | get =>
+    simp only [DbLog.step]
+    split
+    · next r q h1 h2 =>
+      obtain ⟨hr, he, hc'⟩ := hi
+      exact ⟨by simpa [h1, h2] using hr, he, hc'⟩
+    · exact hi
+  | commit =>
+    simp only [DbLog.step]
+    split
+    · next r h1 =>
+      obtain ⟨hr, he, hc'⟩ := hi
+      exact ⟨by simpa [h1, List.append_assoc] using hr, he, hc'⟩
+    · exact hi
+  | retry =>
+    simp only [DbLog.step]
+    split
+    · next r h1 =>
+      obtain ⟨hr, he, hc'⟩ := hi
+      refine ⟨?_, he, hc'⟩
+      simp only [h1, Option.toList_some, Option.toList_none, List.append_nil, List.append_assoc] at hr ⊢
+      refine List.Perm.trans ?_ hr
+      exact List.Perm.append_left _ (List.perm_append_comm)
+    · exact hi
+
+theorem PInv.exec {s : Sys} (hi : PInv s) (sched : List Choice) : PInv (exec s sched) := by
+  induction sched generalizing s with
+  | nil => exact hi
+  | cons c cs ih => exact ih (hi.step c)
+
 /-! ### which exchanges have been performed -/
 
 /-- `d` is a prefix of `h`, possibly followed by the next exchange of `h` turned into a cancelled one -/
